@@ -121,6 +121,8 @@ def rand_start(rng, kind):
 def cases(tier, seed):
     for c in corner_cases():
         yield c
+    for c in history_cases(tier, seed):
+        yield c
     for i in range(NCASES[tier]):
         rng = gen.rng_for(seed, "C14", i)
         types = list(TYPES)
@@ -147,6 +149,26 @@ def cases(tier, seed):
         yield {"k": "chain", "typed": typed, "chain": chain,
                "name": ("c%d" % rng.randint(0, 9)) if rng.random() < 0.25 else None,
                "starts": [rand_start(rng, k) for k in START_KINDS]}
+
+
+def history_cases(tier, seed):
+    """(a) one mutable data object refilled in place between applications (a reader that
+    reuses its event list); (b) an attribute of the variable changed between applications,
+    through the documented ways (attribute assignment, the public var_context dictionary,
+    in-place change of a list attribute)."""
+    n = 40 if tier == "quick" else 1500
+    for i in range(n):
+        rng = gen.rng_for(seed, "C14", "hist", i)
+        types = list(TYPES)
+        rng.shuffle(types)
+        chain = [rand_var(rng, types, True) for _ in range(rng.choice([1, 2, 2, 3]))]
+        yield {"k": "reuse", "chain": chain, "form": rng.choice(["compose", "compose", "single"]),
+               "steps": [[rng.randint(-5, 9), rng.randint(0, 5)] for _ in range(4)]}
+        v = rand_var(rng, types, rng.random() < 0.6)
+        v[4]["range"] = [0, rng.randint(1, 9)]
+        yield {"k": "attrs", "var": v, "ops": [rng.choice(["setattr", "var_context", "inplace",
+                                                           "none"]) for _ in range(4)],
+               "ctx": rng.random() < 0.7}
 
 
 def corner_cases():
@@ -218,7 +240,7 @@ def leaves(vr):
             out.extend(leaves(x))
         return out
     # a Combine is one application; its own description = what it puts under its type
-    return [(combine_name(vr), vr[3], None)]
+    return [(combine_name(vr), vr[3], ("combine", len(vr[1])))]
 
 
 def combine_name(vr):
@@ -349,11 +371,14 @@ def check_types_model(obs, sr, chain, var_ctx, what, named):
                   "%s of %r on start %r: variable.compose = %r for a single application of "
                   "type %r" % (what, chain, sr, var_ctx.get("compose"), exp_compose))
     for name, t, own in lv:
-        if own is None:
-            obs.check(isinstance(var_ctx.get(t), dict) and var_ctx[t].get("name") == name,
+        if isinstance(own, tuple):
+            sub = var_ctx.get(t)
+            obs.check(isinstance(sub, dict) and sub.get("name") == name
+                      and sub.get("dim") == own[1] and len(sub.get("combine", ())) == own[1],
                       "type-attributes-lost:" + cls,
                       "%s of %r on start %r: variable[%r] = %r, expected the description of "
-                      "Combine %r" % (what, chain, sr, t, var_ctx.get(t), name))
+                      "Combine %r (name, dim = %d and the contexts of its %d variables)"
+                      % (what, chain, sr, t, var_ctx.get(t), name, own[1], own[1]))
         else:
             obs.check(var_ctx.get(t) == own, "type-attributes-lost:" + cls,
                       "%s of %r on start %r: variable[%r] = %r, expected %r"
@@ -490,8 +515,10 @@ def run_combine(r, obs):
                       "Combine%r: variable.combine %r, the variables' contexts are %r"
                       % (vs_r, var.get("combine"), part_ctx))
             if t:
-                obs.check(var.get("type") == t and isinstance(var.get(t), dict)
-                          and var[t].get("name") == exp_name,
+                sub = var.get(t)
+                obs.check(var.get("type") == t and isinstance(sub, dict)
+                          and sub.get("name") == exp_name and sub.get("dim") == len(vs_r)
+                          and tuple(sub.get("combine", ())) == part_ctx,
                           "combine-type-subcontext-wrong",
                           "Combine%r type=%r: variable.type %r, variable[type] %r"
                           % (vs_r, t, var.get("type"), var.get(t)))
@@ -504,6 +531,78 @@ def run_combine(r, obs):
                   % (vs_r, mkstart(sr), [freeze(x) for x in results]))
 
 
+def _first(d):
+    """Getter on list data: numeric view of the first item."""
+    return gen._num(d[0]) if isinstance(d, (list, tuple)) and d else gen._num(d)
+
+
+def run_reuse(r, obs):
+    import lena.core
+    import lena.variables
+    obs.nontrivial = True
+    chain = r["chain"]
+    parts = [build_var(v) for v in chain]
+    # the first variable reads the event (a list), the others transform the number
+    first = lena.variables.Variable(chain[0][1] + "_ev", _first, type="evt")
+    allv = [first] + parts
+    if r["form"] == "compose":
+        target = lena.variables.Compose(*allv)
+    else:
+        target = first
+    seqtwin = lena.core.Sequence(*[copy.deepcopy(v) for v in allv]) \
+        if r["form"] == "compose" else None
+    event = []
+    for step in r["steps"]:
+        event[:] = step                 # the same list object, refilled in place
+        exp = _first(event)
+        if r["form"] == "compose":
+            for v in chain:
+                exp = gen.DATA_FUNCS[v[2]](exp)
+        got = target(event)
+        obs.count("applications_to_a_reused_data_object")
+        obs.check(gen.data_of(got) == exp, "data-differs-from-nested-getters:reused-data-object",
+                  "%s of %r applied to the list object %r (refilled in place since the previous "
+                  "application) gives data %r, the nested getters give %r"
+                  % (r["form"], chain, event, gen.data_of(got), exp))
+        if seqtwin is not None:
+            sres = list(seqtwin.run(iter([event])))
+            obs.check(len(sres) == 1 and gen.data_of(sres[0]) == gen.data_of(got),
+                      "compose-data-differs-from-sequence:reused-data-object",
+                      "Compose gives %r, the Sequence of the same variables %r for the reused "
+                      "list %r" % (gen.data_of(got), sres, event))
+
+
+def run_attrs(r, obs):
+    import lena.variables
+    obs.nontrivial = True
+    v = build_var(r["var"])
+    for n, op in enumerate(r["ops"]):
+        if op == "setattr":
+            v.unit = "u%d" % n
+        elif op == "var_context":
+            v.var_context["label"] = "L%d" % n
+        elif op == "inplace":
+            v.range[1] = 100 + n
+        exp = copy.deepcopy(v.var_context)
+        val = (3, {"i": n}) if r["ctx"] else 3
+        got = v(val)
+        obs.count("applications_after_attribute_changes")
+        var = got[1].get("variable") if gen.has_ctx(got) else None
+        obs.check(var == exp, "context-variable-not-the-current-attributes:after-" + op,
+                  "Variable %r after the changes %r: context.variable = %r, the variable's "
+                  "var_context is %r" % (r["var"], r["ops"][:n + 1], var, exp))
+        obs.check(v.var_context == exp, "var-context-changed-by-call",
+                  "var_context %r -> %r" % (exp, v.var_context))
+        if isinstance(var, dict):
+            # the value's context must not alias the variable's own dictionary
+            var["poisoned-downstream"] = 1
+            if isinstance(var.get("range"), list):
+                var["range"].append("x")
+            obs.check(v.var_context == exp, "var-context-changed-by-call",
+                      "changing the yielded context.variable in place changed var_context to %r"
+                      % (v.var_context,))
+
+
 _reported = {}
 MAX_PER_MECH = 4   # the worker keeps at most 200 violations: one mechanism must not fill it
 
@@ -512,6 +611,10 @@ def run_case(r, obs):
     try:
         if r["k"] == "chain":
             run_chain(r, obs)
+        elif r["k"] == "reuse":
+            run_reuse(r, obs)
+        elif r["k"] == "attrs":
+            run_attrs(r, obs)
         else:
             run_combine(r, obs)
     finally:
